@@ -67,6 +67,8 @@ class SimFS:
     # ------------------------------------------------------------- access
     def _stat(self, path: str) -> _Stat:
         self.stats += 1
+        if self.rlog is not None:
+            self.rlog.check_available(path)
         if self.unavailable:
             self.eio_fired += 1
             self.log.append((_task_name(), "stat", path, "EIO"))
@@ -84,6 +86,8 @@ class SimFS:
 
     def _open(self, path: str) -> io.StringIO:
         self.opens += 1
+        if self.rlog is not None:
+            self.rlog.check_available(path)
         if self.unavailable:
             self.eio_fired += 1
             self.log.append((_task_name(), "open", path, "EIO"))
